@@ -481,6 +481,8 @@ DIRECTED = [
     # group-specific terms under an operator that only looks at common terms
     "y ~ x : (z + w + (1 | g))", "y ~ x * (z + (1 | g))", "y ~ x / (z + (a | g))", "y ~ (x | g + h + (1 | k))", "y ~ (1 | g + (1 | k))",
     "y ~ (z + (1 | g)) : x", "y ~ (z + (1 | g)) ** 2", "y ~ ((1 | g) + z) / x", "y ~ x : (1 | g)", "y ~ (a | g) : (b | h)", "y ~ ((a | g) | h)",
+    # a keyword given twice
+    "y ~ f(x, k=a, k=b)", "f(k=a, k=b)", "y ~ (f(x, k=a, w=c, k=b) | g)", "{f(k=a, k=a)}",
     # exponents the algebra has no meaning for
     "y ~ (a + b) ** c", "y ~ (a + b) ** 2.5", "y ~ (a + b) ** f(c)", "y ~ (a + b) ** c:d", "y ~ a ** b",
 ]
